@@ -6,6 +6,7 @@ require github.com/dominant-strategies/go-quai v0.0.0
 
 require (
 	github.com/DataDog/zstd v1.4.5 // indirect
+	github.com/VictoriaMetrics/fastcache v1.12.2 // indirect
 	github.com/bahlo/generic-list-go v0.2.0 // indirect
 	github.com/benbjohnson/clock v1.3.5 // indirect
 	github.com/beorn7/perks v1.0.1 // indirect
@@ -25,6 +26,7 @@ require (
 	github.com/dchest/siphash v1.2.3 // indirect
 	github.com/decred/dcrd/crypto/blake256 v1.0.1 // indirect
 	github.com/decred/dcrd/dcrec/secp256k1/v4 v4.2.0 // indirect
+	github.com/dominant-strategies/bn256 v0.0.0-20250117181620-a3c0ff77c445 // indirect
 	github.com/dominant-strategies/ltcd v0.0.0-20251016174055-4ac338381b32 // indirect
 	github.com/dominant-strategies/ltcd/btcec/v2 v2.0.0-20251016174055-4ac338381b32 // indirect
 	github.com/dominant-strategies/ltcd/chaincfg/chainhash v0.0.0-20251016174055-4ac338381b32 // indirect
@@ -35,6 +37,9 @@ require (
 	github.com/gcash/bchutil v0.0.0-20250513235300-39ac514d072b // indirect
 	github.com/gogo/protobuf v1.3.2 // indirect
 	github.com/golang/snappy v0.0.4 // indirect
+	github.com/hashicorp/golang-lru/v2 v2.0.5 // indirect
+	github.com/holiman/bloomfilter/v2 v2.0.3 // indirect
+	github.com/holiman/uint256 v1.2.4 // indirect
 	github.com/ipfs/go-cid v0.4.1 // indirect
 	github.com/kaspanet/go-muhash v0.0.4 // indirect
 	github.com/klauspost/cpuid/v2 v2.2.5 // indirect
